@@ -203,7 +203,8 @@ fn for_each_collision_fault(src: &str, mut f: impl FnMut(&'static str, String)) 
 }
 
 /// Every ordered pair of items that define the SAME name `x`, in an interface, in a world and
-/// at the top level: each mix of kinds must be accepted or rejected with a diagnostic.
+/// at the top level, and every kind of let-bound item in every top-level position that takes a
+/// name: each mix of kinds must be accepted or rejected with a diagnostic.
 pub fn name_collision_documents() -> Vec<String> {
     let pre = "package a:b;\ninterface i0 { type x = u8; }\n";
     let iface_items = [
@@ -219,6 +220,19 @@ pub fn name_collision_documents() -> Vec<String> {
         "let x = new c:d { ... };", "export x;", "import y as x: func();", "import x: i0;",
     ];
     let mut out = Vec::new();
+    // every kind of item reached through an instance import and bound with `let`, used in every
+    // top-level position that takes a name
+    let bound = [("r", "resource r;"), ("t", "record t { a: u8 }"), ("e", "enum e { a }"), ("f", "f: func();"), ("n", "type n = u32;")];
+    let uses = [
+        "type x = {N};", "record x { a: {N} }", "variant x { a({N}) }", "type x = list<{N}>;", "type x = option<{N}>;", "type x = borrow<{N}>;",
+        "type x = func(a: {N});", "type x = func() -> {N};", "import g: func(a: {N});", "import g: {N};", "export {N} as q;", "export {N};",
+        "interface j { use {N}.{a}; }", "world v { import g: func(a: {N}); }", "let y = {N}.a;", "let y = new c:d { a: {N} };",
+    ];
+    for (name, decl) in bound {
+        for u in uses {
+            out.push(format!("package a:b;\nimport i: interface {{ {decl} }};\nlet {name} = i.{name};\n{}\n", u.replace("{N}", name)));
+        }
+    }
     for a in iface_items {
         for b in iface_items {
             out.push(format!("{pre}interface i {{ {a} {b} }}\n"));
